@@ -31,6 +31,8 @@ import Jap.Core.ExcFlow
 import Jap.Lemmas.ExcFlow
 import Jap.Gen.ExcFlow
 import Jap.Gen.ExcFlowCert
+import Jap.Core.ExcFlowRaises
+import Jap.Gen.ExcFlowRaises
 
 namespace Jap.Props.C03
 open Jap.ExcFlow
@@ -306,6 +308,78 @@ theorem C03_pipeline_args_total (top : Bool) (mode : Mode) (O : List Region → 
   intro e he
   obtain ⟨p, hp, rfl⟩ := List.mem_map.mp he
   exact ⟨C03_pipeline_paths p hp, fun s hs => hO p hp s hs⟩
+
+/-! ## the RAISES side: what can escape the leaf functions, computed from the source -/
+
+abbrev leaves : List Leaf := Jap.Gen.ExcFlowRaises.leaves
+
+/-- C03_static_raises.  Every exception class that the static over-approximation (explicit `raise`, failure tables of the builtins
+and library callables, attribute access / subscripts on unchecked parameters, f-strings; minus the function's own handlers) finds
+able to escape a leaf function of the parse pipeline — the validation functions of the restricted types, the deserializers of the
+registered types, the loaders, import_object, ActionYesNo._boolean_type — is a DESIGNED failure of the region the leaf runs in (and,
+for a registered type, one of that type's own `deserializer_exceptions`), in every loader mode in which the leaf runs there; or is
+excused by a guard that the extractor found in front of the raising expression, by an open finding, or by a stated assumption. -/
+theorem C03_static_raises : ∀ l ∈ leaves, leafOk tables excuses l = true := by decide +kernel
+
+/-- ... and therefore (with `C03_routing`) is routed to ArgumentError / exit status 2 on EVERY call path of any depth that ends in
+the leaf's region, for every public method, both exit_on_error modes (unless the path runs through one of the three tagged origins). -/
+theorem C03_static_routed (top : Bool) (mode : Mode) (m : Method) (root : Region) (hroot : root ∈ roots m)
+    (path : List Region) (hpath : chain root path = true)
+    (l : Leaf) (_hl : l ∈ leaves) (hreg : leaf root path = l.region) (o : Origin) (_ho : o ∈ l.escapes)
+    (hc : covered tables mode l o.cls = true) :
+    conforming top (routePath tables mode top root path (.exc o.cls .clean)) = true ∨
+      (routeSig tables mode top root path (.exc o.cls .clean)).tag ≠ .clean := by
+  simp only [covered, Bool.and_eq_true] at hc
+  have hb := born_of_designedCovers hc.1 top (effLeaf tables top path)
+  rw [← hreg] at hb
+  exact C03_routing top mode m root hroot path hpath _ hb
+
+/-- nothing is left over: the list of (leaf, class, origin) triples that are neither covered nor excused is empty -/
+theorem C03_static_nothing_uncovered : uncovered tables excuses leaves = [] := by decide +kernel
+
+/-- every excuse is still in use (an excuse whose origin disappeared from the source — a repaired finding, a removed call — must be
+deleted: the list cannot silently grow stale) -/
+theorem C03_static_excuses_live :
+    ∀ e ∈ excuses, leaves.any (fun l => l.escapes.any (fun o => excusedBy l o e)) = true := by decide +kernel
+
+/-- the open findings among the excuses are REAL escapes of the routing model (negation witnesses): an OverflowError /
+ArithmeticError born inside `RegisteredType.deserializer` passes its handler, `_check_type` and the method's handler -/
+def witnessRegisteredOverflow : Outcome :=
+  routePath tables .yaml false (.body .parseObject) [.applyActions, .checkValueKey, .checkType, .adapt, .registered] (.exc .OverflowError .clean)
+
+def witnessDecimal : Outcome :=
+  routePath tables .yaml true (.body .parseArgs) [.knownArgs, .typehintAction, .checkType, .adapt, .registered] (.exc .ArithmeticError .clean)
+
+theorem C03_static_open_findings_escape :
+    witnessRegisteredOverflow = .escapes .OverflowError ∧ witnessDecimal = .escapes .ArithmeticError ∧
+    (∀ mode ∈ Mode.all, designedCovers tables mode .registered .OverflowError = false ∧
+      designedCovers tables mode .registered .ArithmeticError = false) ∧
+    -- inside Optional / Union the same failure is absorbed (`except Exception` per member)
+    routePath tables .yaml false (.body .parseObject) [.applyActions, .checkValueKey, .checkType, .adapt, .unionTry, .adapt, .registered]
+      (.exc .OverflowError .clean) = .argErr := by decide +kernel
+
+-- non-vacuity: the table is not empty, covered origins exist and the composed theorem applies to them
+example : leaves.length ≥ 20 ∧ (leaves.map (fun l => l.escapes.length)).sum ≥ 80 := by decide +kernel
+example : ∃ l ∈ leaves, ∃ o ∈ l.escapes, l.name = intLeaf ∧ o.cls = .ValueError ∧ covered tables .yaml l o.cls = true := by
+  decide +kernel
+example : routePath tables .yaml true (.body .parseString) [.lcpm, .applyActions, .checkValueKey, .checkType, .adapt, .registered]
+    (.exc .ValueError .clean) = .exit 2 := by decide
+-- sensitivity: the obligation fails when a guard goes (seed C03-5B: the integrality test moved behind the conversion) ...
+example : originOk tables excuses ⟨intLeaf, .registered, Mode.all, [.ValueError, .TypeError, .AttributeError], []⟩
+    ⟨.OverflowError, "int(v)", ["passed: isinstance(v, bool)", integralGuard]⟩ = true := by decide +kernel
+example : originOk tables excuses ⟨intLeaf, .registered, Mode.all, [.ValueError, .TypeError, .AttributeError], []⟩
+    ⟨.OverflowError, "int(v)", ["passed: isinstance(v, bool)"]⟩ = false := by decide +kernel
+-- ... when a conversion leaves its try block (seed C03-A: int() of load_basic outside the `except ValueError`) ...
+example : originOk tables excuses ⟨"_loaders_dumpers.load_basic", .loadValue, Mode.all, [], []⟩ ⟨.ValueError, "int(value)", []⟩ = false := by
+  decide +kernel
+-- ... when a registered type narrows its deserializer_exceptions, or a leaf raises a class its region is not designed for
+example : originOk tables excuses ⟨"typing.range_deserializer", .registered, Mode.all, [.ValueError], []⟩ ⟨.AttributeError, "value.strip()", []⟩ = false := by
+  decide +kernel
+-- (seed C03-4A: "not a boolean" raised as ValueError; ActionYesNo._check_type runs it under _check_value_key without a handler)
+example : originOk tables excuses ⟨"_actions.ActionYesNo._boolean_type", .checkValueKey, Mode.all, [], []⟩ ⟨.ValueError, "raise ValueError", []⟩ = false := by
+  decide +kernel
+example : originOk tables excuses ⟨"_actions.ActionYesNo._boolean_type", .checkValueKey, Mode.all, [], []⟩ ⟨.TypeError, "raise TypeError", []⟩ = true := by
+  decide +kernel
 
 /-! ## non-vacuity and sensitivity -/
 
